@@ -358,6 +358,18 @@ class Engine:
             names.append(fn.args.vararg.arg)
         if fn.args.kwarg:
             names.append(fn.args.kwarg.arg)
+        # free variables of a nested function (closure cells of the enclosing decorator ...) are inputs like parameters
+        for name, tystr in (ct.ghost.get("free") or {}).items():
+            if tystr == "Recorder":
+                # an unknown callable: each call records its arguments in the ghost variable called_<name> and returns an unknown string
+                def rec(interp_, args, kwargs, _n=name):
+                    interp_.ctx.ghost["called_" + _n] = tuple(args)
+                    interp_.ctx.ghost["calls_" + _n] = interp_.ctx.ghost.get("calls_" + _n, 0) + 1
+                    return interp_.ctx.fresh(interp_.ptype("Str"), "ret_" + _n)
+                env[name] = rec
+                continue
+            ct.params.setdefault(name, tystr)
+            names.append(name)
         refs = []
         for name in names:
             if name not in ct.params:
